@@ -62,8 +62,11 @@ class PeerConn:
         self.buf = b""
         self.sent = b""
         self.requests = 0
+        self.mute = False  # a gateway that accepts the TCP connection while it is still booting and answers nothing yet
 
     def respond(self, data: bytes) -> None:
+        if self.mute:
+            return
         loop = asyncio.get_event_loop()
         loop.call_later(0.01, self.deliver, data)
 
@@ -145,6 +148,8 @@ class PeerConn:
 class Peer:
     def __init__(self, proto: str, cut: int | None, kind: str, restart_delay: float, cut_at_boundary: bool = True, pending: bool = False) -> None:
         self.pending = pending  # the first connection answers a read with ResponsePending before the final reply
+        self.restart_mode = "refuse"  # or "mute": while restarting, the peer accepts connections but answers nothing
+        self.muted: list[Any] = []
         self.proto = proto
         self.cut = cut
         self.kind = kind
@@ -172,6 +177,11 @@ class Peer:
         loop = asyncio.get_event_loop()
         if self.conns and (self.cut_time is None or loop.time() < self.cut_time + self.restart_delay):
             self.refused += 1
+            if self.restart_mode == "mute":
+                c = PeerConn(self, -1, None, self.kind)
+                c.mute = True
+                self.muted.append(c)
+                return c.reader, c.writer
             raise ConnectionRefusedError("peer not accepting yet")
         first = not self.conns
         c = PeerConn(self, len(self.conns), self.cut if first else None, self.kind)
@@ -209,6 +219,7 @@ def run_case(case: dict[str, Any]) -> dict[str, Any]:
     req_pdu = b"\x22" + did.to_bytes(2, "big")
     reply = b"\x62" + req_pdu[1:3] + REPLY_TAIL
     peer = Peer(proto, case["cut"], case["kind"], case["restart"], case.get("boundary_cut", True), bool(case.get("pending")))
+    peer.restart_mode = case.get("restart_mode", "refuse")
     rec: dict[str, Any] = {"ops": []}
 
     async def go() -> None:
@@ -251,8 +262,16 @@ def run_case(case: dict[str, Any]) -> dict[str, Any]:
                 # for a silent peer only the transport's acknowledgement timeout can reveal the loss: the request timeout
                 # must not undercut it, and two detections may be needed (before and after the acknowledgement)
                 silent = case["kind"] == "silence"
-                cl = UDSClient(tr, timeout=3.0 if silent else 1.0, max_retry=3 if silent else case["max_retry"])
-                r = await op("request", cl.request(service.ReadDataByIdentifierRequest(did)))
+                retries = 3 if silent else case["max_retry"]
+                if case.get("retry_via") == "request":
+                    # the retries are asked for per request, the client's own default is "none"
+                    from gallia.services.uds.core.client import UDSRequestConfig
+
+                    cl = UDSClient(tr, timeout=3.0 if silent else 1.0, max_retry=0)
+                    r = await op("request", cl.request(service.ReadDataByIdentifierRequest(did), UDSRequestConfig(max_retry=retries)))
+                else:
+                    cl = UDSClient(tr, timeout=3.0 if silent else 1.0, max_retry=retries)
+                    r = await op("request", cl.request(service.ReadDataByIdentifierRequest(did)))
                 rec["client_reply"] = getattr(r, "pdu", None) if r is not None else None
                 await op("close", cl.transport.close())
                 await op("close2", cl.transport.close())
@@ -364,7 +383,10 @@ def enumerate_cases(did: int, level: str, restart: float, max_retry: int, protos
                     # (up to just before the end of that window: 9.55 s)
                     rs = {0.0: 0.0, 0.05: 1.0, 0.1: 3.0, 0.12: 6.45, 0.15: 9.55}.get(restart, restart) if proto == "doip" else min(restart, 0.1)
                     cases.append({"proto": proto, "level": level, "did": did, "cut": cut, "kind": kind, "timeout": T, "restart": rs,
-                                  "max_retry": max_retry, "second_read": True})
+                                  "max_retry": max_retry, "second_read": True, "retry_via": "request" if (level == "client" and (cut or 0) % 2 == 1) else "client"})
+                    if proto == "doip" and level == "client" and kind != "silence" and 0 < rs <= 6.5 and (cut or 0) % 3 == 0:
+                        # the restarting gateway already accepts TCP connections but does not answer the routing activation yet
+                        cases.append(dict(cases[-1], restart_mode="mute"))
         if level == "client":
             # the same exchange with a ResponsePending in front of the final reply: every cut point once more, with the retries
             # the case asks for and with none left (the loss then has to surface as the error the statement names)
@@ -374,7 +396,7 @@ def enumerate_cases(did: int, level: str, restart: float, max_retry: int, protos
                     for mr in (max_retry, 0):
                         cases.append({"proto": proto, "level": level, "did": did, "cut": max(0, cut), "kind": kind, "timeout": 1.0,
                                       "restart": {0.0: 0.0, 0.05: 1.0, 0.1: 3.0, 0.12: 6.45, 0.15: 9.55}.get(restart, restart) if proto == "doip" else min(restart, 0.1),
-                                      "max_retry": mr, "second_read": True, "pending": True})
+                                      "max_retry": mr, "second_read": True, "pending": True, "retry_via": "request" if max(0, cut) % 2 == 0 else "client"})
     return cases
 
 
@@ -404,7 +426,7 @@ def run_shard(spec: dict[str, Any], seed: int) -> Collector:
         ex = dict(ex, level=spec["level"])
         for case in enumerate_cases(ex["did"], ex["level"], ex["restart"], ex["max_retry"], spec["protos"]):
             res = check(case)
-            col.case((case["proto"], case["level"], case["did"], case["cut"], case["kind"], case["timeout"], case["restart"], case["max_retry"], bool(case.get("pending"))),
+            col.case((case["proto"], case["level"], case["did"], case["cut"], case["kind"], case["timeout"], case["restart"], case["max_retry"], bool(case.get("pending")), case.get("retry_via"), case.get("restart_mode")),
                      nontrivial(case), cls=f"{case['proto']}/{case['level']}/{case['kind']}" + ("/no-timeout" if case["timeout"] is None else "")
                      + ("/after-pending" + ("/no-retry-left" if case["max_retry"] == 0 else "") if case.get("pending") else ""), sample=case)
             for b, m in res:
